@@ -1,5 +1,7 @@
 import Tea.Proofs.Inline
 import Tea.Proofs.AltRoundtrip
+import Tea.Proofs.InlineHistory
+import Tea.Proofs.InlineClear
 /-
 C06 — After every render the terminal shows exactly the latest view.
 
@@ -42,6 +44,15 @@ it).  Vocabulary (defined in `Tea/Proofs/Paint.lean`, `Tea/Proofs/AltScreen.lean
   view rows, which lie inside the window; window rows below the cursor are blank; a valid line
   cache has `linesRendered` lines and view row `i` shows (the visible part of) cached line `i`;
   and a non-empty `lastRender` has the cache that `flush` computed for it.
+
+* inline histories (`Tea/Proofs/InlineHistory.lean`, `Tea/Proofs/InlineClear.lean`):
+  `J r` — the queue invariant of a run, `r.queued ≠ [] → r.lastRender = []` (a pending printed line
+  forces the next flush of a pending view to paint); `inlineStable` — every step but `.size`,
+  `.enterAlt`, `.clearScreen`, `.stop`, `.kill`; `inlineStableC` — the same plus `.clearScreen`;
+  `ClearedInv r t` — the state between a ClearScreen while inline and the next painting flush: main
+  screen, same size, every window row blank, cursor at the top left of the window without pending
+  wrap, both caches invalid (nothing is said about `linesRendered`);
+  `InlineOrCleared r t` — `(InlineInv r t ∧ J r) ∨ ClearedInv r t`.
 
 Rows are rows of the unbounded tape of `Tea/VT/Term.lean`: scrolling moves the window
 (`top`), not the content, so "row R is unchanged" also covers rows scrolled out of the window.
@@ -288,6 +299,198 @@ theorem C06_inline_flush (r : RState) (t : Term) (hinv : InlineInv r t) (hq : r.
   rw [a10] at a3
   omega
 
+/-- **Level 5: the inline invariant is kept by every inline history.**  `J r` is the queue
+invariant of a run (`Tea/Proofs/InlineHistory.lean`): `r.queued ≠ [] → r.lastRender = []` — a
+pending printed line always forces the next flush of a pending view to paint (`printLine` clears
+`lastRender`, a flush that paints empties the queue); it holds initially and is kept by every
+renderer step while inline (`J_step`).  `inlineStable` = every step but a resize, entering the alt
+screen, ClearScreen (for which see `C06_inline_history_clear`) and shutting down (`stop`, `kill`:
+C07), i.e. writes, flushes (painting, skipping, printing queued lines, or no-ops), repaint
+requests, ExitAltScreen (a no-op inline), cursor / mouse / paste / focus modes, printed lines and
+the title.  One step: `inline_step_inv`; for any history of such steps, with the terminal
+receiving exactly what the steps write: -/
+theorem C06_inline_history (ops : List ROp) : ∀ (r : RState) (t : Term), InlineInv r t → J r →
+    (∀ o ∈ ops, inlineStable o = true) →
+    InlineInv (run r ops).1 ((run r ops).2.foldl applyOps t) ∧ J (run r ops).1 := by
+  induction ops with
+  | nil => intro r t h hJ _; exact ⟨h, hJ⟩
+  | cons o os ih =>
+    intro r t h hJ hs
+    obtain ⟨h1, hJ1⟩ := inline_step_inv r t h hJ o (hs o (by simp))
+    have h2 := ih (step r o).1 (applyOps t (step r o).2) h1 hJ1 (fun o' ho' => hs o' (by simp [ho']))
+    simpa [run] using h2
+
+/-- Consequently, after ANY such inline history — views, flushes, repaints, modes, printed lines,
+in any order — the next `write s; flush` leaves, with `n` the number of lines of the frame of `s`
+(`1 ≤ n ≤ h`) and `(r1, t1)` renderer and terminal after the history:
+* the `n` rows ending at the cursor row, all inside the window, are exactly the frame of `s`: row
+  `cr + 1 - n + i` is (the visible part of) line `i`, cut at the width and padded with blanks;
+* every window row below the cursor is blank (nothing stale);
+* the cursor rests in column 0 without a pending wrap;
+* every row above the row `viewTop r1 t1` where the view started is untouched, the lines that
+  were still queued are printed from that row on, once and in order (`qrows`: wrapped at the
+  width), and the view is directly below them;
+* the invariants hold again, nothing is queued, the size is unchanged. -/
+theorem C06_inline_always (r : RState) (t : Term) (hinv : InlineInv r t) (hJ : J r)
+    (ops : List ROp) (hs : ∀ o ∈ ops, inlineStable o = true) (s : Bytes)
+    (r1 r' : RState) (t1 t' : Term) (hr1 : r1 = (run r ops).1)
+    (ht1 : t1 = (run r ops).2.foldl applyOps t)
+    (hr' : r' = (flush (write r1 s)).1) (ht' : t' = applyOps t1 (flush (write r1 s)).2) :
+    InlineInv r' t' ∧ J r' ∧ r'.queued = [] ∧ t'.w = t.w ∧ t'.h = t.h ∧
+    1 ≤ (frameLines (write r1 s)).length ∧ (frameLines (write r1 s)).length ≤ t'.h ∧
+    t'.main.top + (frameLines (write r1 s)).length ≤ t'.main.cr + 1 ∧
+    t'.main.cr < t'.main.top + t'.h ∧
+    (∀ i l, (frameLines (write r1 s))[i]? = some l →
+      t'.main.row t'.w (t'.main.cr + 1 - (frameLines (write r1 s)).length + i) =
+        padLine t'.w (Ansi.visible l)) ∧
+    (∀ ρ, t'.main.cr < ρ → ρ < t'.main.top + t'.h → t'.main.row t'.w ρ = List.replicate t'.w 32) ∧
+    t'.main.cc = 0 ∧ t'.main.pw = false ∧
+    (∀ ρ, ρ < viewTop r1 t1 → ∀ c, t'.main.cells ρ c = t1.main.cells ρ c) ∧
+    (∀ j l, (qrows t'.w r1.queued)[j]? = some l →
+      t'.main.row t'.w (viewTop r1 t1 + j) = padLine t'.w l) ∧
+    t'.main.cr + 1 =
+      viewTop r1 t1 + (qrows t'.w r1.queued).length + (frameLines (write r1 s)).length := by
+  obtain ⟨h1, hJ1, tr⟩ := inline_run_trace ops r t hinv hJ hs
+  rw [← hr1, ← ht1] at h1 tr
+  rw [← hr1] at hJ1
+  obtain ⟨a1, a2, a3, _, _, a6, a7, a8, a9, a10, a11⟩ :=
+    inline_flushJ_inv (write r1 s) t1 (h1.write s) hJ1 (write_buf_ne r1 s)
+  rw [← hr', ← ht'] at a1 a3
+  rw [← hr'] at a2 a10 a11
+  rw [← ht'] at a6 a7 a8 a9
+  obtain ⟨_, b2, b3⟩ := a1.screen a10
+  have hn1 : 1 ≤ (frameLines (write r1 s)).length := by
+    rw [frameLines_eq]; exact frameOf_length_pos _ _
+  have hvt : viewTop r' t' = t'.main.cr + 1 - (frameLines (write r1 s)).length := by
+    unfold viewTop; rw [a11, Nat.max_eq_left hn1]
+  have hin := a1.inside
+  rw [a11, Nat.max_eq_left hn1] at hin
+  have hv1 : viewTop (write r1 s) t1 = viewTop r1 t1 := rfl
+  have hq1 : (write r1 s).queued = r1.queued := rfl
+  rw [hv1, hq1] at a3 a9
+  rw [hv1] at a8
+  rw [hvt] at b2 a3
+  rw [← a6] at a3 a9
+  refine ⟨a1, fun h => absurd a2 h, a2, a6.trans tr.w, a7.trans tr.h, hn1, ?_, hin.1, hin.2, b2, b3,
+    a1.col.1, a1.col.2, a8, ?_, by omega⟩
+  · omega
+  · intro j l hj
+    exact (rowShows_iff_row _ _ _ _).1 (a9 j l hj)
+
+/-! ### ClearScreen while inline -/
+
+/-- **ClearScreen while inline.**  The renderer writes ED2, HOME and invalidates its caches, but
+keeps `linesRendered`: the window is blank and the cursor is in its top left corner, so the
+renderer's belief that `linesRendered` view rows end at the cursor row is wrong until the next
+painting flush (`InlineInv` does not hold in between; `ClearedInv` does: main screen, same size,
+every window row blank, cursor at the top left without pending wrap, both caches invalid).
+Nothing above the window is touched, the window does not move, the queue of printed lines, the
+size and the alt screen are what they were. -/
+theorem C06_clearScreen_inline (r : RState) (t : Term) (hinv : InlineInv r t)
+    (r' : RState) (t' : Term) (hr' : r' = (step r .clearScreen).1)
+    (ht' : t' = applyOps t (step r .clearScreen).2) :
+    ClearedInv r' t' ∧ r'.queued = r.queued ∧ r'.linesRendered = r.linesRendered ∧
+    t'.w = t.w ∧ t'.h = t.h ∧ t'.alt = t.alt ∧ t'.main.top = t.main.top ∧
+    (∀ ρ, ρ < t.main.top → ∀ c, t'.main.cells ρ c = t.main.cells ρ c) := by
+  subst hr' ht'
+  exact clearScreen_cleared r t hinv.alt hinv.onAlt hinv.width hinv.height hinv.wpos hinv.hpos
+
+/-- **The first render after a ClearScreen** (nothing queued).  From `ClearedInv r t`, after
+`write s; flush` — the flush always paints, every line (the caches are invalid); its CursorUp by
+`linesRendered - 1` is clamped by the terminal at the top row of the window —: the inline
+invariant holds again; the view's `n` rows are window rows `0 .. n-1` (`viewTop = top`; the window
+does not scroll), each (the visible part of) its frame line cut at the width and padded; window
+rows `n .. h-1` are blank; the cursor is at the start of the last view row; rows above the window
+are untouched.  (With printed lines queued they come first, from the top row of the window on:
+`Tea.Props.C14.C14_flush_after_clear`.) -/
+theorem C06_inline_after_clear (r : RState) (t : Term) (hinv : ClearedInv r t) (hq : r.queued = [])
+    (s : Bytes) (r' : RState) (t' : Term) (hr' : r' = (flush (write r s)).1)
+    (ht' : t' = applyOps t (flush (write r s)).2) :
+    InlineInv r' t' ∧ J r' ∧ r'.queued = [] ∧ t'.alt = t.alt ∧ t'.w = t.w ∧ t'.h = t.h ∧
+    viewTop r' t' = t.main.top ∧ t'.main.top = t.main.top ∧
+    1 ≤ (frameLines (write r s)).length ∧ (frameLines (write r s)).length ≤ t.h ∧
+    t'.main.cr + 1 = t.main.top + (frameLines (write r s)).length ∧
+    t'.main.cc = 0 ∧ t'.main.pw = false ∧
+    (∀ i l, (frameLines (write r s))[i]? = some l →
+      t'.main.row t.w (t.main.top + i) = padLine t.w (Ansi.visible l)) ∧
+    (∀ i, (frameLines (write r s)).length ≤ i → i < t.h →
+      t'.main.row t.w (t.main.top + i) = List.replicate t.w 32) ∧
+    (∀ ρ, ρ < t.main.top → ∀ c, t'.main.cells ρ c = t.main.cells ρ c) := by
+  obtain ⟨a1, a2, a3, a4, a5, a6, a7, a8, _, a10, a11⟩ :=
+    cleared_flush_inv (write r s) t (hinv.congr rfl rfl rfl rfl rfl rfl rfl rfl rfl)
+      (write_buf_ne r s)
+  subst hr' ht'
+  have hq0 : (qrows t.w (write r s).queued).length = 0 := by
+    show (qrows t.w r.queued).length = 0
+    rw [hq]; rfl
+  rw [hq0, Nat.add_zero] at a3 a4
+  have hn1 : 1 ≤ (frameLines (write r s)).length := by rw [frameLines_eq]; exact frameOf_length_pos _ _
+  obtain ⟨v1, v2, _, _, _, v6, v7⟩ := a1.view a10 hn1
+  obtain ⟨_, b2, b3⟩ := a1.screen a10
+  rw [a6, a3] at b2
+  rw [a6, a7] at b3
+  rw [a7] at v1
+  have htop : (applyOps t (flush (write r s)).2).main.top = t.main.top := by rw [a4]; omega
+  have hcr : (applyOps t (flush (write r s)).2).main.cr + 1 =
+      t.main.top + (frameLines (write r s)).length := by
+    have := a3
+    unfold viewTop at this
+    rw [a11, Nat.max_eq_left hn1] at this
+    omega
+  refine ⟨a1, fun h => absurd a2 h, a2, a5, a6, a7, a3, htop, hn1, v1, hcr, v6, v7, b2, ?_, a8⟩
+  intro i hi hih
+  exact b3 _ (by omega) (by rw [htop]; omega)
+
+/-- **The steps that keep `ClearedInv`**: between a ClearScreen and the next flush of a pending
+view, every `inlineStable` step other than that flush — writes, flushes without a pending view,
+repaint requests, ExitAltScreen, modes, printed lines (they are queued), the title — and further
+ClearScreens leave renderer and terminal in `ClearedInv`. -/
+theorem C06_cleared_step (r : RState) (t : Term) (h : ClearedInv r t) (o : ROp)
+    (ho : inlineStableC o = true) (hf : o = .flush → r.buf = []) :
+    ClearedInv (step r o).1 (applyOps t (step r o).2) :=
+  cleared_step_inv r t h o ho hf
+
+/-- **Inline histories with ClearScreen.**  `InlineOrCleared r t` is `(InlineInv r t ∧ J r) ∨
+ClearedInv r t`; `inlineStableC` is `inlineStable` plus `.clearScreen`.  The invariant is kept by
+every such history: a ClearScreen leads to `ClearedInv` (from either state), the next flush of a
+pending view leads back to `InlineInv` — with or without printed lines queued, no side condition
+on the queue is needed —, every other step keeps the state it is in. -/
+theorem C06_inline_history_clear (ops : List ROp) : ∀ (r : RState) (t : Term),
+    InlineOrCleared r t → (∀ o ∈ ops, inlineStableC o = true) →
+    InlineOrCleared (run r ops).1 ((run r ops).2.foldl applyOps t) :=
+  inlineC_run_inv ops
+
+/-- Consequently, after ANY inline history — views, flushes, repaints, modes, printed lines,
+ClearScreens, in any order — the next `write s; flush` leaves: the `n` rows ending at the cursor
+row, all inside the window, are exactly the frame of `s` (visible parts, cut at the width,
+padded); every window row below the cursor is blank; the cursor rests in column 0 without a
+pending wrap; the inline invariants hold, nothing is queued and the size is what it always was. -/
+theorem C06_inline_always_clear (r : RState) (t : Term) (h : InlineOrCleared r t)
+    (ops : List ROp) (hs : ∀ o ∈ ops, inlineStableC o = true) (s : Bytes)
+    (r1 r' : RState) (t1 t' : Term) (hr1 : r1 = (run r ops).1)
+    (ht1 : t1 = (run r ops).2.foldl applyOps t)
+    (hr' : r' = (flush (write r1 s)).1) (ht' : t' = applyOps t1 (flush (write r1 s)).2) :
+    InlineInv r' t' ∧ J r' ∧ r'.queued = [] ∧ t'.w = t.w ∧ t'.h = t.h ∧
+    1 ≤ (frameLines (write r1 s)).length ∧ (frameLines (write r1 s)).length ≤ t'.h ∧
+    t'.main.top + (frameLines (write r1 s)).length ≤ t'.main.cr + 1 ∧
+    t'.main.cr < t'.main.top + t'.h ∧
+    (∀ i l, (frameLines (write r1 s))[i]? = some l →
+      t'.main.row t'.w (t'.main.cr + 1 - (frameLines (write r1 s)).length + i) =
+        padLine t'.w (Ansi.visible l)) ∧
+    (∀ ρ, t'.main.cr < ρ → ρ < t'.main.top + t'.h → t'.main.row t'.w ρ = List.replicate t'.w 32) ∧
+    t'.main.cc = 0 ∧ t'.main.pw = false := by
+  have h1 : InlineOrCleared r1 t1 := by rw [hr1, ht1]; exact inlineC_run_inv ops r t h hs
+  obtain ⟨z1, z2⟩ := run_size ops r t
+  rw [← ht1] at z1 z2
+  obtain ⟨a1, a2, a3, a4, a5⟩ := inlineC_write_flush r1 t1 h1 s
+  rw [← hr', ← ht'] at a1
+  rw [← hr'] at a2 a3
+  rw [← ht'] at a4 a5
+  have hn1 : 1 ≤ (frameLines (write r1 s)).length := by
+    rw [frameLines_eq]; exact frameOf_length_pos _ _
+  obtain ⟨v1, v2, v3, v4, v5, v6, v7⟩ := a1.view a3 hn1
+  exact ⟨a1, fun hq => absurd a2 hq, a2, a4.trans z1, a5.trans z2, hn1, v1, v2, v3, v4, v5, v6, v7⟩
+
 /-- **Alt-screen round trip.**  From an inline view (`InlineInv r t`): EnterAltScreen, then any
 `altStable` history on the alt screen — views, flushes, prints, modes, ClearScreen, repaints —
 then ExitAltScreen.  The inline invariant holds again; the main screen has exactly the cells, the
@@ -501,6 +704,32 @@ example :
       [[120,120,120,120,120,120,120,120,120,120], [48,49,50,51,52,53,54,55,56,57],
        List.replicate 10 32, List.replicate 10 32, List.replicate 10 32] ∧
     t'.main.top = 2 ∧ t'.main.cr = 3 ∧ t'.main.cc = 0 ∧ t'.main.pw = false := by decide
+
+/-! ### ClearScreen while inline (W = 10, H = 5, cursor starts on window row 3) -/
+
+/-- run renderer steps, feeding the terminal -/
+def runOn (r : RState) (t : Term) : List ROp → RState × Term
+  | [] => (r, t)
+  | o :: os => runOn (step r o).1 (applyOps t (step r o).2) os
+
+set_option maxRecDepth 100000 in
+/-- the view "a\nb" (tape rows 3, 4), ClearScreen — the window is blank, old output on row 2
+included, the cursor at its top left; the renderer still counts 2 lines —, then the view
+"A\nB\nC": the flush starts with CUU 1 (clamped at the top row) and paints every line; the view is
+on window rows 0..2, rows 3, 4 are blank, the window did not move -/
+example :
+    let q := runOn ri ti [.write [97,10,98], .flush, .clearScreen]
+    let p := runOn q.1 q.2 [.write [65,10,66,10,67], .flush]
+    mainRows q.2 0 5 = List.replicate 5 (List.replicate 10 32) ∧
+    q.2.main.top = 0 ∧ q.2.main.cr = 0 ∧ q.2.main.cc = 0 ∧ q.1.linesRendered = 2 ∧
+    q.1.lastLines = none ∧ q.1.lastRender = [] ∧
+    (flush (write q.1 [65,10,66,10,67])).2 =
+      [.cuu 1, .cr, .text [65], .el0, .cr, .lf, .text [66], .el0, .cr, .lf, .text [67], .el0, .cub 10] ∧
+    mainRows p.2 0 5 =
+      [[65,32,32,32,32,32,32,32,32,32], [66,32,32,32,32,32,32,32,32,32],
+       [67,32,32,32,32,32,32,32,32,32], List.replicate 10 32, List.replicate 10 32] ∧
+    p.2.main.top = 0 ∧ p.2.main.cr = 2 ∧ p.2.main.cc = 0 ∧ p.2.main.pw = false ∧
+    p.1.linesRendered = 3 := by decide
 
 /-! ### alt-screen round trip from the inline view (W = 10, H = 5, cursor starts on window row 3) -/
 
